@@ -21,7 +21,7 @@ import (
 	"verif/vlib"
 )
 
-var vfC06Cfg = &vfGenCfg{MaxOps: 30, TwoWallets: true, BadPass: false,
+var vfC06Cfg = &vfGenCfg{MaxOps: 30, TwoWallets: true, BadPass: false, Bulk: 8,
 	Weights: map[string]int{"new": 3, "next": 6, "gen": 14, "remark": 1, "chpriv": 1, "chpub": 1, "delete": 1, "export": 1, "import": 1, "xfer": 3,
 		"lock": 3, "unlock": 3, "restart": 5, "sign": 1}}
 
